@@ -119,9 +119,14 @@ bool Module::initialize(const Json &js_parent)
         return false;
     }
 
-    for (const auto &item : children_) {
-        if (!item.module_ptr->initialize(js_this) && item.required) {
-            LogErr("required module `%s' initialize() fail", item.module_ptr->name().c_str());
+    for (auto iter = children_.begin(); iter != children_.end(); ++iter) {
+        if (!iter->module_ptr->initialize(js_this) && iter->required) {
+            LogErr("required module `%s' initialize() fail", iter->module_ptr->name().c_str());
+            //! 回滚：按相反的顺序清理之前已初始化的子模块，再清理自己，
+            //! 确保每个成功的 onInit() 都有与之对应的 onCleanup()
+            while (iter != children_.begin())
+                (--iter)->module_ptr->cleanup();
+            onCleanup();
             return false;
         }
     }
@@ -142,9 +147,14 @@ bool Module::start()
         return false;
     }
 
-    for (const auto &item : children_) {
-        if (!item.module_ptr->start() && item.required) {
-            LogErr("required module `%s' start() fail", item.module_ptr->name().c_str());
+    for (auto iter = children_.begin(); iter != children_.end(); ++iter) {
+        if (!iter->module_ptr->start() && iter->required) {
+            LogErr("required module `%s' start() fail", iter->module_ptr->name().c_str());
+            //! 回滚：按相反的顺序停止之前已启动的子模块，再停止自己，
+            //! 确保每个成功的 onStart() 都有与之对应的 onStop()
+            while (iter != children_.begin())
+                (--iter)->module_ptr->stop();
+            onStop();
             return false;
         }
     }
